@@ -117,12 +117,29 @@ def prepare(tier):
     trees(2 if tier == "quick" else 3)
 
 
+PREP_LEAVES = [T.leaf("KeyLength", "equal_to", 1), T.leaf("ValueLength", "equal_to", 3), T.leaf("KeyDataType", "equal_to", str),
+               T.leaf("ValueDataType", "equal_to", str), T.leaf("ValueLength", "less_than", 3), T.NULL, LEAVES["v1"]]
+PREP_DOCS = [{"ab": [1, 2, 3], "c": "xyz", 1: "ab", "d": 5}, {"a": "abc", "bc": [1]}]
+
+
+def prep_trees():
+    out = []
+    for op in OPS:
+        for a in PREP_LEAVES:
+            for b in PREP_LEAVES:
+                out.append((op, a, b))
+                if a[0] != "null" and b[0] != "null":
+                    out.append((op, (op, a, b), PREP_LEAVES[1]))
+                    out.append((op, PREP_LEAVES[0], ("or" if op != "or" else "and", b, a)))
+    return out
+
+
 def units(tier):
     depth = 2 if tier == "quick" else 3
     n = len(trees(depth))
     chunk = 40 if tier == "quick" else 400
     u = [["T", way, i, min(i + chunk, n)] for way in WAYS for i in range(0, n, chunk)]
-    u += [["N", 0]]
+    u += [["N", 0], ["PREP"]]
     hist_depth = 2 if tier == "quick" else 3
     # H part: one unit per first transition (prefix partition)
     u += [["H", hist_depth, i] for i in range(len(h_menu(len(h_initial_terms()))))]
@@ -137,6 +154,10 @@ def run_unit(unit, tier):
         for i in range(lo, hi):
             check_tree(res, ts[i], way, key=("T", way, i))
         res.sample({"kind": "T", "tree": ts[lo], "way": way})
+    elif unit[0] == "PREP":
+        for i, t in enumerate(prep_trees()):
+            for way in ("operator", "spec"):
+                check_tree(res, t, way, key=("PREP", way, i), docs_override=PREP_DOCS)
     elif unit[0] == "N":
         for op in OPS:
             for n in range(0, 4):
@@ -151,7 +172,7 @@ def run_unit(unit, tier):
 def replay(case):
     res = Result()
     if case["kind"] == "T":
-        check_tree(res, case["tree"], case["way"], key=("replay",))
+        check_tree(res, case["tree"], case["way"], key=("replay",), docs_override=PREP_DOCS if case.get("prep") else None)
     elif case["kind"] == "N":
         check_nary(res, case["op"], tuple(case["operands"]))
     else:
@@ -165,10 +186,12 @@ def _shape(t):
     return "null" if t[0] == "null" else T.KIND[t[1]][0]
 
 
-def check_tree(res, t, way, key):
+def check_tree(res, t, way, key, docs_override=None):
     res.count("evaluations")
     res.state(*key)
     case = {"kind": "T", "tree": t, "way": way}
+    if docs_override is not None:
+        case["prep"] = True
     kinds = T.cond_kinds(t)
     mixed = "key" in kinds and "index" in kinds
     res.count("transitions")
@@ -193,6 +216,8 @@ def check_tree(res, t, way, key):
         docs += MAP_DOCS
     if "key" not in kinds:
         docs += LIST_DOCS
+    if docs_override is not None:
+        docs = docs_override
     nontrivial = t[0] in OPS
     for doc in docs:
         d = fresh(doc)
